@@ -63,7 +63,7 @@ def norm_history(hist):
     return [m1.op_json(o) for o in hist]
 
 
-def explore(run, n_hist, rec_prefix, weights=None, seed_off=0):
+def explore(run, n_hist, rec_prefix, weights=None, seed_off=0, oracle=True):
     rec = m1.Recorder(run, rec_prefix)
     rng = run.rng
     with m1.Capture() as cap:
@@ -93,13 +93,26 @@ def explore(run, n_hist, rec_prefix, weights=None, seed_off=0):
                     key = common.sha([fp["hash"], canon(stored_settings(idnt)),
                                       canon(fp.get("preprocessing")),
                                       canon(fp.get("preprocessing_options"))])
-                if key is not None and key not in seen:
+                if oracle and key is not None and key not in seen:
                     seen.add(key)
                     why = compare_with_fresh(idnt, cols)
                     run.count("fresh-comparisons")
+                    site, fkey = SITE, "history:" + common.sha(
+                        norm_history(hist))[:16]
+                    if why and "cannot reproduce" in why:
+                        # equal-valued setting of a type the fitter rejects
+                        seg = fp.get("segment")
+                        ns = fp.get("optimal_fit_num_samples")
+                        if isinstance(seg, float):
+                            site, fkey = SITE_EDIT, f"setitem:segment:{canon(seg)}"
+                        elif isinstance(ns, float) and fp.get(
+                                "optimal_fit_edelta"):
+                            site, fkey = SITE_EDIT, (
+                                "setitem:optimal_fit_num_samples:"
+                                f"{canon(ns)}")
                     if why:
                         run.failing(
-                            SITE, "history:" + common.sha(norm_history(hist))[:16],
+                            site, fkey,
                             "results differ from a fresh curve with the "
                             f"stored settings after {len(hist)} operations: "
                             f"{why}",
@@ -107,7 +120,7 @@ def explore(run, n_hist, rec_prefix, weights=None, seed_off=0):
                                      "history": norm_history(hist)},
                             expected="bit-identical to fresh curve",
                             observed=why, theorem="C03_valid")
-                if "hash" in fp and rng.random() < 0.3:
+                if oracle and "hash" in fp and rng.random() < 0.3:
                     # repeat fit with unchanged settings: nothing happens
                     before = m1.alpha(idnt)
                     c0 = cap.minimize_calls
